@@ -41,8 +41,9 @@ RULE = ('one case = one content item tree (depth <= 3) of a value type drawn uni
         'of the 14 other classes; planes with collinear / repeated leading points, scaled x64 and /64; time offsets 0.0 / -0.0 / 0')
 ASSUMPTIONS = [
     'pydicom value conversions (DS, DA, TM, DT, PersonName, UID, FL/FD encoding) are the identity on the generated '
-    'values: numbers are ints below 2^40 or floats stored exactly in FloatingPointValue, coordinates are multiples of '
-    '1/8 below 2^15 (exact as float32), dates/times carry at most microseconds',
+    'values: numbers are ints below 2^40 or floats stored exactly in FloatingPointValue; 60-70 % of the coordinate arrays hold multiples of '
+    '1/8 below 2^15 (exact as float32), the others arbitrary doubles (0.1, 1/3, uniform) whose expected stored value is the float32 '
+    'cast computed by the harness (np.float32, handed to the model as the table `fl`); dates/times carry at most microseconds',
     'exact coplanarity over Q agrees with spatial.are_points_coplanar (SVD, tol 1e-5) on the generated points: '
     'coplanar sets are exactly coplanar dyadic points, non-coplanar sets deviate by >= 1/4',
     'concept names and codes are well-formed CodedConcepts (their equality and parsing are property C17)',
@@ -50,6 +51,9 @@ ASSUMPTIONS = [
     'by the constructors and fail only in pydicom\'s writer); coordinates stay inside the float32 range (beyond it they become inf)',
     'dates / times given as strings are complete DA / TM / DT strings produced from a datetime (pydicom accepts e.g. the ISO form '
     '2020-01-02T03:04:05 as DT and reads it as the year 2020: not generated); None / empty strings for values are outside the documented types',
+    'whole numbers spelled as floats (3.0) are generated for frame numbers (IS) and sample positions (converted by int()), not for '
+    'segment numbers / waveform channels (VR US: accepted by the constructor, pydicom cannot write them); 0 and negative frame / segment '
+    'numbers and digit strings are accepted by the constructors (run once) and not generated',
     'a NUM value of a type that is neither int nor float (numpy integer, numpy float32, Decimal, str) is refused by the library with TypeError: '
     'compared with the model only, the oracle does not demand the refusal',
 ]
@@ -433,7 +437,7 @@ def gen_item(r, depth=0, vt=None, bad=None, need_rel=False):
 # argument omitted / given as None ...).  `decorate` draws one spelling per argument from its OWN stream and stores it
 # under d['sp'] (absent = the plain spelling of round 1); it also plants the round-2 forbidden features.
 
-SEQ_SPELLINGS = ['list', 'list', 'tuple', 'ndarray', 'list-np']
+SEQ_SPELLINGS = ['list', 'list', 'tuple', 'ndarray', 'list-np', 'list-float']
 NUM_BAD_TYPES = ['npInt64', 'npInt32', 'npFloat32', 'decimal', 'str']
 ENUM_OF = {'rel': 'RelationshipTypeValues', 'gt': 'GraphicTypeValues', 'gt3d': 'GraphicTypeValues3D',
            'range': 'TemporalRangeTypeValues', 'origin': 'PixelOriginInterpretationValues'}
@@ -462,7 +466,9 @@ def decorate(r, d, top=True, plant=None):
                 a['value'], a['float'] = r.randint(-1000, 1000), False
             d['bad'] = 'numtype'
     elif vt == 'CONTAINER':
-        sp['continuous'] = 'omitted' if a['continuous'] and r.random() < 0.5 else r.choice(['bool', 'bool', 'int'])
+        # (explicit None is outside the documented type `bool`; the constructor reads it by its truth value, like 0)
+        sp['continuous'] = 'omitted' if a['continuous'] and r.random() < 0.5 else r.choice(
+            ['bool', 'bool', 'int'] + ([] if a['continuous'] else ['none-explicit']))
         sp['template'] = 'int' if a['template'] and r.random() < 0.3 else 'str'
     elif vt == 'IMAGE':
         for k in ('frames', 'segments'):
@@ -473,11 +479,24 @@ def decorate(r, d, top=True, plant=None):
                 sp[k] = r.choice(['scalar', 'scalar-np'])
             else:
                 sp[k] = r.choice(SEQ_SPELLINGS + (['scalar', 'scalar-np'] if len(v) == 1 and r.random() < 0.3 else []))
+                if k == 'segments' and sp[k] == 'list-float':
+                    sp[k] = 'list'          # whole numbers as floats (3.0) pass the constructor but VR US cannot be written by pydicom
         if plant == 'empty':
             k = r.choice(['frames', 'segments'])
             a[k] = []
             sp[k] = r.choice(['list', 'tuple', 'ndarray'])
             d['bad'] = 'empty'
+        elif plant == 'fractional':
+            # a number with a fractional part where an integer is required (it could only be stored truncated)
+            k = r.choice(['frames', 'segments'])
+            frac = r.randint(1, 300) + r.choice([0.5, 0.25, 0.9, 1e-6])
+            if r.random() < 0.4:
+                a[k], sp[k] = frac, 'scalar-float'
+            else:
+                v = [r.randint(1, 300) for _ in range(r.choice([1, 2, 4]))]
+                v[r.randrange(len(v))] = frac
+                a[k], sp[k] = v, r.choice(['list', 'tuple', 'ndarray-float'])
+            d['bad'] = 'fractional'
     elif vt == 'WAVEFORM':
         if a['channels'] is not None:
             sp['channels'] = r.choice(['list-of-tuples', 'list-of-tuples', 'list-of-lists', 'tuple-of-tuples', 'ndarray'])
@@ -495,6 +514,12 @@ def decorate(r, d, top=True, plant=None):
             a['channels'] = ch
             sp['channels'] = r.choice(['list-of-tuples', 'list-of-lists'])
             d['bad'] = 'nonpair'
+        elif plant == 'fractional':
+            ch = [[r.randint(1, 9), r.randint(1, 40)] for _ in range(r.choice([1, 2, 3]))]
+            ch[r.randrange(len(ch))][r.randrange(2)] += r.choice([0.5, 0.25, 0.9])
+            a['channels'] = ch
+            sp['channels'] = r.choice(['list-of-tuples', 'list-of-lists'])
+            d['bad'] = 'fractional'
     elif vt in ('SCOORD', 'SCOORD3D'):
         sp['gt'] = r.choice(['str', 'str', 'member'])
         sp['origin'] = r.choice(['str', 'member'])
@@ -522,6 +547,10 @@ def decorate(r, d, top=True, plant=None):
             first = given[0]
             a[first] = []
             d['bad'] = 'empty'
+        elif plant == 'fractional':
+            a['positions'] = [r.randint(1, 10 ** 6) for _ in range(r.choice([1, 2, 3]))]
+            a['positions'][r.randrange(len(a['positions']))] += r.choice([0.5, 0.7, 0.999])
+            d['bad'] = 'fractional'
     if plant == 'enum-member' and vt not in ('SCOORD', 'SCOORD3D') and d['rel'] in RELS and d['bad'] is None:
         sp['rel'] = 'other-enum-member'
         d['rel_member_of'] = r.choice(['ValueTypeValues', 'GraphicTypeValues'])
@@ -530,7 +559,8 @@ def decorate(r, d, top=True, plant=None):
         decorate(r, c, False)
 
 
-PLANT2_FOR = {'IMAGE': ['empty'], 'WAVEFORM': ['empty', 'nonpair', 'nonpair'], 'TCOORD': ['empty'], 'NUM': ['numtype'],
+PLANT2_FOR = {'IMAGE': ['empty', 'fractional'], 'WAVEFORM': ['empty', 'nonpair', 'nonpair', 'fractional'], 'TCOORD': ['empty', 'fractional'],
+              'NUM': ['numtype'],
               'SCOORD': ['enum-member'], 'SCOORD3D': ['enum-member']}
 
 BAD_FOR = {'SCOORD': ['count', 'dim', 'enum', 'ndim'], 'SCOORD3D': ['count', 'open', 'noncoplanar', 'enum', 'dim', 'ndim'],
@@ -619,6 +649,10 @@ def _spell_seq(v, how, elem=int):
         return np.array(v, dtype=np.int64 if elem is int else float)
     if how == 'list-np':
         return [np.int64(x) if elem is int else np.float64(x) for x in v]
+    if how == 'list-float':
+        return [float(x) for x in v]           # whole numbers spelled as floats (3.0): taken as 3
+    if how == 'ndarray-float':
+        return np.array(v, dtype=float)
     return list(v)
 
 
@@ -626,11 +660,15 @@ def _spell_nums(v, how):
     """frame / segment numbers: a scalar or a sequence"""
     if v is None:
         return None
+    if how == 'scalar-float':
+        return float(v)
     if how in ('scalar', 'scalar-np'):
         x = v if isinstance(v, int) else v[0]
         return np.int64(x) if how == 'scalar-np' else int(x)
-    if isinstance(v, int):
+    if isinstance(v, (int, float)):
         return v
+    if how == 'ndarray' and any(isinstance(x, float) for x in v):
+        how = 'ndarray-float'
     return _spell_seq(v, how)
 
 
@@ -702,7 +740,7 @@ def build(d):
     elif vt == 'CONTAINER':
         ck = {}
         if sp.get('continuous') != 'omitted':
-            ck['is_content_continuous'] = int(a['continuous']) if sp.get('continuous') == 'int' else a['continuous']
+            ck['is_content_continuous'] = {'int': int(a['continuous']), 'none-explicit': None}.get(sp.get('continuous'), a['continuous'])
         tid = int(a['template']) if a['template'] and sp.get('template') == 'int' else a['template']
         it = sr.ContainerContentItem(nm, **ck, **opt(template_id=tid), **kw)
     elif vt == 'COMPOSITE':
@@ -738,7 +776,7 @@ def build(d):
                                     **opt(fiducial_uid=_spell_uid(a['fiducial'], uid)), **kw)
     elif vt == 'TCOORD':
         how = sp.get('values', 'list')
-        pos = None if a['positions'] is None else _spell_seq(a['positions'], how)
+        pos = None if a['positions'] is None else _spell_seq(a['positions'], 'list' if any(isinstance(x, float) for x in a['positions']) else how)
         off = None if a['offsets'] is None else _spell_seq(a['offsets'], how, float)
         dts = None
         if a['datetimes'] is not None:
@@ -1015,12 +1053,16 @@ def model_spec(d):
             x = a[k]
             if x is None:
                 return None
+            if isinstance(x, float) or (isinstance(x, list) and any(isinstance(y, float) for y in x)):
+                return {'fractional': [isinstance(x, list), len(x) if isinstance(x, list) else 1]}
             if isinstance(x, int) or sp.get(k) in ('scalar', 'scalar-np'):
                 return {'scalar': x if isinstance(x, int) else x[0]}
             return {'seq': list(x)}
         args = {'cls': a['cls'], 'inst': a['inst'], 'frames': nums('frames'), 'segments': nums('segments')}
     elif vt == 'WAVEFORM':
-        args = {'cls': a['cls'], 'inst': a['inst'], 'channels': a['channels']}
+        ch = a['channels']
+        args = {'cls': a['cls'], 'inst': a['inst'], 'channels': None if ch is None else [[int(x) for x in c] for c in ch],
+                'fractional': ch is not None and any(isinstance(x, float) for c in ch for x in c)}
     elif vt == 'SCOORD':
         args = {'gt': foreign if sp.get('gt') == 'other-enum-member' else a['gt'], 'dim': a['dim'],
                 'pts': [[_fr(x) for x in row] for row in a['pts']], 'origin': a['origin'],
@@ -1032,7 +1074,8 @@ def model_spec(d):
                 'fl': _fl_table(a['pts'])}
     elif vt == 'TCOORD':
         args = {'range': a['range'],
-                'positions': None if a['positions'] is None else list(a['positions']),
+                'positions': None if a['positions'] is None else [int(x) for x in a['positions']],
+                'fractional': a['positions'] is not None and any(isinstance(x, float) for x in a['positions']),
                 'offsets': None if a['offsets'] is None else [_fr(x) for x in a['offsets']],
                 'datetimes': None if a['datetimes'] is None else [_dts(v) for v in a['datetimes']]}
     rel = foreign if sp.get('rel') == 'other-enum-member' else d['rel']
